@@ -18,6 +18,8 @@ class LocalDeme(AbstractDeme):
         starting_pop = [self._sprout_seed]
         self._history.append([starting_pop])
         self._run_history: list[Individual] = []
+        # scipy minimises: a maximisation problem is handed over with the sign flipped.
+        self._sign = -1.0 if self._problem.maximize else 1.0
 
         self._options = {}
         if "maxiter" in config.__dict__:
@@ -25,7 +27,9 @@ class LocalDeme(AbstractDeme):
 
     def run_metaepoch(self, _) -> None:
         x0 = self._sprout_seed.genome
-        fun = self._problem.evaluate
+
+        def fun(x):
+            return self._sign * self._problem.evaluate(x)
 
         result = sopt.minimize(
             fun,
@@ -52,5 +56,5 @@ class LocalDeme(AbstractDeme):
     def _history_callback(self, intermediate_result) -> None:
         # scipy hands out its in-place work array: without a copy all recorded iterates end up sharing the final genome
         ind = Individual(intermediate_result.x.copy(), problem=self._problem)
-        ind.fitness = intermediate_result.fun
+        ind.fitness = self._sign * intermediate_result.fun
         self._run_history.append(ind)
